@@ -62,6 +62,8 @@ def minimise(mode: str, hist: list[dict[str, str]], recheck: bool, cache_world: 
     """1-minimal failing history: drop steps; revert single-module changes of a step to the previous step's
     content; replace a module's content in the first step by the default content -- while it still fails."""
     default = {"a": "use", "b": "reexport", "c": "c[0,0]"}
+    if any(w["c"].startswith("k") or w["a"].startswith("u") and w["a"] != "use" for w in hist):
+        default = {"a": "ustar", "b": "star", "c": "k0000"}       # catalogue D2
 
     def fails(h: list[dict[str, str]]) -> bool:
         if cache_world is not None:
